@@ -62,3 +62,33 @@ def trace_clause(ev, expected):
     if not any(canon(x["st"]) == canon(ev["st"]) for x in expected):
         return "StateOK"
     return "AbsOK"
+
+
+def rerun_graph_record(pid: str, doc: dict, make_impl, matcher) -> int:
+    """./check <id> --replay <file> for a violation found by the graph replay: rebuild the real object,
+    re-execute the recorded path and the failing operation, compare again with the recorded (TLC-produced)
+    expectation."""
+    rep, sig = doc["replay"], doc["signature"]
+    impl = make_impl()
+    for op in rep.get("path", []):
+        impl.apply(op)
+    if sig.get("clause") == "PathState":
+        why = matcher.state(rep["expected_state"], impl.project())
+    else:
+        ret = impl.apply(rep["op"])
+        proj = impl.project()
+        why = None
+        whys = []
+        for o in rep["expected"]:
+            w = matcher.ret(o["ret"], ret) or matcher.state(o["st"], proj)
+            if not w:
+                whys = []
+                break
+            whys.append(w)
+        why = whys[0] if whys else None
+    if why:
+        print(f"VIOLATION property={pid} replay=(re-executed) {why}")
+        print(f"  signature: {sig}")
+        return 1
+    print(f"[{pid}] replay: the recorded behaviour now conforms to the specification")
+    return 0
